@@ -151,6 +151,9 @@ def small_table_text(rng):
         return "sw%dq" % n[0]
 
     rows, cols = rng.choice([(1, 1), (1, 2), (1, 3), (2, 1), (3, 1), (1, 1), (2, 1)])
+    container = rng.random() < 0.15         # a one-cell table that only wraps a 2 x 2 table (with or without a caption of its own)
+    if container:
+        rows, cols = 1, 1
     lines = [w(), "", "{|" + rng.choice(["", ' class="wikitable"', ' border="1"'])]
     if rng.random() < 0.6:
         lines.append("|+ " + w() + (" " + w() if rng.random() < 0.5 else ""))
@@ -158,11 +161,11 @@ def small_table_text(rng):
         if r or rng.random() < 0.6:
             lines.append("|-")
         sep = "!" if r == 0 and rng.random() < 0.3 else "|"
-        if rng.random() < 0.5:
+        if rng.random() < 0.5 and not container:
             lines.append(sep + " " + (" " + sep + sep + " ").join(w() for _ in range(cols)))
         else:
             for _ in range(cols):
-                k = rng.random()
+                k = 0.25 if container else rng.random()
                 if k < 0.2:
                     lines += [sep, "* " + w(), "* " + w()]
                 elif k < 0.3:
@@ -383,7 +386,7 @@ def run(chk: common.Check):
     chk.proof_coverage(res, trusted)
     n = 20000 if tier == "thorough" else 2500
     items = [chk.seed * 10_000_000 + 7_000_000 + i for i in range(n)]
-    items += [("small", chk.seed * 10_000_000 + 7_500_000 + i) for i in range(n // 8)]
+    items += [("small", chk.seed * 10_000_000 + 7_500_000 + i) for i in range(n // 4)]
     r, c = guard.guarded_run(str(chk.mkscratch()), "harness.c07:worker", items, nproc=16, hard_timeout=120,
                              stop_when=lambda r, c: len(c) >= 2 or sum(len(x[0]) for x in r) >= 6)
     bad, hist = [], Counter()
